@@ -80,7 +80,10 @@ def _check_err_marks(T, sub, case, who, e, text, lc, exact):
                             % (who, type(e).__name__, nm, m.index, m.line, m.column, lc.at(m.index)))
 
 
-def check_text(T, sub, case, text):
+def check_text(T, sub, case, text, via=None):
+    """via: None = the text itself; an int = delivered through a stream that hands out that many characters per read"""
+    from ..streams import ChunkStream
+    src = (lambda: text) if via is None else (lambda: ChunkStream(text, (via,)))
     lc = linecol.LineCol(text)
     nontriv = 0
     for be, Loader in (('py', yaml.Loader), ('c', yaml.CLoader)):
@@ -88,7 +91,7 @@ def check_text(T, sub, case, text):
         toks, terr = [], None
         T.evaluations += 1
         try:
-            for t in yaml.scan(text, Loader=Loader):
+            for t in yaml.scan(src(), Loader=Loader):
                 toks.append(t)
         except yaml.YAMLError as e:
             terr = e
@@ -106,7 +109,7 @@ def check_text(T, sub, case, text):
         evs, perr = [], None
         T.evaluations += 1
         try:
-            for ev in yaml.parse(text, Loader=Loader):
+            for ev in yaml.parse(src(), Loader=Loader):
                 evs.append(ev)
         except yaml.YAMLError as e:
             perr = e
@@ -304,6 +307,13 @@ def bfs(T, first, depth):
     T.sample('parser-stub', {'tokens': [STUB_KINDS[k][0] for k in seq]})
 
 
+# long inputs delivered through streams: positions must not depend on how the reader re-bases its buffer
+LONG_SHAPES = [('map-lines', lambda n: ''.join('key%d: value %d\n' % (i, i) for i in range(n // 16))), ('seq-short', lambda n: '- a\n' * (n // 4)),
+               ('long-comment', lambda n: 'a: 1\n# ' + 'c' * n + '\nb: 2\n- oops\n'), ('long-plain', lambda n: 'k: ' + 'word ' * (n // 5) + '\nj: [1, 2]\n'),
+               ('long-quoted', lambda n: 'k: "' + 'ab ' * (n // 3) + '"\n&x y: *x\n'), ('flow', lambda n: '[' + 'item, ' * (n // 6) + 'last]\n--- second\n'),
+               ('literal', lambda n: 'k: |\n' + '  line\n' * (n // 7) + 'after: 1\n'), ('wide', lambda n: '- \u00e9\U0001F600 x\n' * (n // 7))]
+
+
 # ------------------------------------------------------------------ plan
 def plan(tier, seed):
     q = tier == 'quick'
@@ -319,6 +329,7 @@ def plan(tier, seed):
     jobs += gen.string_jobs('str', len(SIGMA), 4 if q else 5, plen=2)
     jobs += [('bom', i) for i in range(4)]
     jobs += [('bommid', n, a) for n in range(1, (5 if q else 6)) for a in range(8)]
+    jobs += [('long', i) for i in range(len(LONG_SHAPES) * 3)]
     return jobs
 
 
@@ -335,6 +346,16 @@ def run_job(job, T):
             s = '\ufeff' + s
             check_text(T, 'bom-strings', {'input': s}, s)
         T.sample('bom-strings', {'input': s})
+    elif kind == 'long':
+        name, mkt = LONG_SHAPES[job[1] // 3]
+        base = (4096, 8192, 12288)[job[1] % 3]
+        for delta in (-40, -3, -1, 0, 1, 2, 5, 17, 100):
+            text = mkt(base + delta)
+            for via in (None, 4096, 1000, 7):
+                case = {'long': name, 'size': base + delta, 'via': via}
+                if T.trace: T.begin(case)
+                check_text(T, 'long-streams', case, text, via=via)
+        T.sample('long-streams', {'long': name, 'size': base + delta, 'via': via})
     elif kind == 'bommid':
         # a byte order mark anywhere in the text: the Reader gives it no width (O-linecol: U+FEFF never advances the column)
         alpha = ['a', ' ', '\n', ':', '-', '\ufeff', '"', '#']
@@ -367,6 +388,9 @@ def run_job(job, T):
 
 
 def replay(sub, case, T):
+    if 'long' in case:
+        check_text(T, sub, case, dict(LONG_SHAPES)[case['long']](case['size']), via=case.get('via'))
+        return
     if sub == 'parser-stub':
         seq = tuple(case['seq'])
         check_run(T, seq, run_parser(seq))
